@@ -492,7 +492,8 @@ def pN (op : OpDef) (g k : Nat) : Nat := (pI op g k).toNat
 def opClass (g : Graph) (op : OpDef) : Option Nat :=
   match op.kind with
   | "CONV_2D" | "DEPTHWISE_CONV_2D" | "FULLY_CONNECTED" | "ADD" | "SUB" | "MUL" | "QUANTIZE" | "LEAKY_RELU" | "TRANSPOSE_CONV"
-  | "HARD_SWISH" | "SQUARED_DIFFERENCE" | "ABS" => some 0
+  | "SQUARED_DIFFERENCE" | "ABS" | "PRELU" => some 0
+  | "HARD_SWISH" => some 1            -- a table-based activation (property text), although the table is exact in practice
   | "MAX_POOL_2D" | "RELU" | "RELU6" | "RELU_N1_TO_1" | "MINIMUM" | "MAXIMUM" | "RESHAPE" | "SQUEEZE" | "EXPAND_DIMS" => some 2
   | "CONCATENATION" =>
     -- inputs quantised like the output are copied; the others are requantised (approximated class)
@@ -685,6 +686,18 @@ def evalOp (g : Graph) (env : Env) (op : OpDef) : Except String (List Tensor) :=
     (List.range num).mapM fun k => do
       let t ← slice a ((List.replicate a.shape.length 0).set axis k) (a.shape.set axis 1)
       pure { t with shape := a.shape.eraseIdx axis }
+  | "PRELU" =>
+    -- params: identity multiplier, shift, alpha multiplier, shift (`reference_ops::BroadcastPrelu4DSlow`)
+    let a ← getIn env op 0; let al ← getIn env op 1
+    let o := outId op 0
+    let dt := g.dtype o
+    let zi := g.zp (inId op 0)
+    let za := g.zp (inId op 1)
+    let f := fun (x y : Int) =>
+      let iv := x - zi
+      let v := if iv ≥ 0 then mbqm iv (pI op 0 0) (pI op 0 1) else mbqm (iv * (y - za)) (pI op 0 2) (pI op 0 3)
+      clamp (v + g.zp o) dt.lo dt.hi
+    return [← binary a al f]
   | "ABS" =>
     -- params: needs_rescale, multiplier, shift (input_scale / output_scale as float)
     let a ← getIn env op 0
@@ -877,6 +890,12 @@ def verifyParams (g : Graph) (op : OpDef) : Except String Unit := do
     let bits16 := g.dtype o == .i16
     if pN op 0 2 ≠ (if bits16 then 15 else 20) then throw "reference parameter mismatch for ADD/SUB left shift"
     actCheck (pI op 0 0) (pI op 0 1) (pN op 0 9)
+  | "PRELU" =>
+    let si ← g.scale1 (inId op 0)
+    let sa ← g.scale1 (inId op 1)
+    let so ← g.scale1 o
+    expectEq "PRELU identity multiplier" (some (pI op 0 0, pI op 0 1)) (qmRatioFloat si so)
+    expectEq "PRELU alpha multiplier" (some (pI op 0 2, pI op 0 3)) (qmMulFloat si sa so)
   | "ABS" =>
     let si ← g.scale1 (inId op 0)
     let so ← g.scale1 o
